@@ -453,7 +453,10 @@ def vm_crosscheck(pid, run_import, run_name, cases, outputs):
     """Evaluate the model INSIDE Coq (vm_compute) on a sample of cases and compare with the
     outputs of the extracted binary, so that extraction + the OCaml driver are cross-checked.
     Returns (n_checked, list_of_bad_indices, log)."""
-    pairs = [(c, parse_sx(o)) for c, o in zip(cases, outputs) if not o.startswith("!")]
+    # very long cases (tens of thousands of list elements) overflow coqc's stack when written
+    # out as a Gallina list literal: they are left to the extracted binary alone
+    pairs = [(c, parse_sx(o)) for c, o in zip(cases, outputs)
+             if not o.startswith("!") and len(o) + len(sx(c)) < 40000]
     if not pairs:
         return 0, [], ""
     work = os.path.join(BUILD, "vmcheck", pid)
